@@ -242,7 +242,7 @@ def coq_case(r):
         return '(2%nat, [], [], [], [], 1%nat)'       # run without an event log (several workers, or no batching): not replayed
     kinds = [{'x': 0, 'exc': 1, 'pre': 2}[a[2]] for a in c['arrivals']]
     evs = clist(r['events'], lambda e: f'({cnat(e[0])}, {cnat(e[1])}, {cz(e[2])})')
-    calls = clist([cl[2] for cl in r['calls']], lambda l: clist(l, cnat))
+    calls = clist([cl[2] for cl in r['calls']], lambda l: clist(l, lambda x: cnat(x if isinstance(x, int) and 0 <= x < 4999 else 4999)))
     verdict = 0 if (r['verdict'] == 'ok' and r['outcome'] == ['finished']) else 1
     return f"({cnat(c['b'])}, {clist(kinds, cnat)}, {clist(c.get('poison', []), cnat)}, {evs}, {calls}, {cnat(verdict)})"
 
@@ -337,7 +337,7 @@ def policy_main(seed, n, outp, corpus):
             obs, err = {'finished': False, 'batches': []}, f'{type(e).__name__}: {e}'
         res.append({'case': c, 'cfg': c, 'obs': obs, 'crash': err, 'oracle': err or c19.oracle(c, obs), 'strategy': 'policy',
                     'verdict': 'ok'})
-    json.dump(res, open(outp, 'w'))
+    json.dump(res, open(outp, 'w'), default=lambda o: f'<{type(o).__name__}: {o!r:.60}>')
 
 
 def make_strategy(rng):
@@ -369,7 +369,7 @@ def main(argv):
         r = run_batch(cfg, st)
         r['cfg'], r['strategy'] = cfg, kind
         out.append(r)
-    json.dump(out, open(outp, 'w'))
+    json.dump(out, open(outp, 'w'), default=lambda o: f'<{type(o).__name__}: {o!r:.60}>')
 
 
 if __name__ == '__main__':
